@@ -139,7 +139,10 @@ def run_case(spec):
                 groups += 1
         counters["degenerate_groups_rotated"] += groups
         Rd = adj(R)
-        tf, tx = _map_terms(p, lambda n, M: (np.asarray(Rd, complex) if not p.exact else np.array([[complex(x) for x in r] for r in Rd])) @ M @ (np.asarray(R, complex) if not p.exact else np.array([[complex(x) for x in r] for r in R])), lambda n, M: Rd @ M @ R)
+        Rf = R if not p.exact else np.array([[complex(x) for x in r] for r in R])
+        Rdf = Rf.conj().T
+        # H_0 commutes with R exactly (R acts inside degenerate levels): keep it bit-for-bit, rotate the rest
+        tf, tx = _map_terms(p, lambda n, M: M if n == z else Rdf @ M @ Rf, lambda n, M: M if n == z else Rd @ M @ R)
         q = matprob.derive(p, terms_f=tf, terms_x=tx)
         got = _run(q)
         for name, A, B in zip(names, base, got):
@@ -155,7 +158,7 @@ def run_case(spec):
                 out[idx] = M[idx].conjugate()
             return out
         tf, tx = _map_terms(p, lambda n, M: M.conj(), cx)
-        q = matprob.derive(p, terms_f=tf, terms_x=tx, complex=True)
+        q = matprob.derive(p, terms_f=tf, terms_x=tx)
         got = _run(q)
         for name, A, B in zip(names, base, got):
             for n in p.orders:
